@@ -409,3 +409,6 @@ macro_rules! world_insert {
 world_insert!(world_q_insert_ba, RAB, first = (B(kani::any()), A(kani::any())), second = none);
 // (two inserts: measured > 20 GB, not kept)
 world_insert!(world_t_insert_empty, RAB, first = (), second = none);
+
+// Measured: `Archetypes::clone_from` / `clone` at table level (two archetypes per side, one row)
+// does not fit in 20 GB either (1.9 M program steps); the table level of clone is outside the claim.
